@@ -775,6 +775,18 @@ def rule_CR(ctx, tier):
                 ok_arm = any(f[0] == "variant" and f[2] == "Ok" and has_call(f[1], "send_raw_transaction") for f in fs)
                 err_arm = any(f[0] == "variant" and f[2] == "Err" and has_call(f[1], "send_raw_transaction") for f in fs)
                 code = [s32(f[2]) for f in fs if f[0] == "eq" and has_call(f[1], "send_raw_transaction")]
+                code_set = [tuple(s32(v) for v in f[2]) for f in fs if f[0] == "eq_in" and has_call(f[1], "send_raw_transaction")]
+                if not code and code_set:
+                    # one arm for several codes (`A | B => ..`): every code of the arm must want this verdict
+                    names = [codes.get(v) for v in code_set[0]]
+                    if var == "Rejected" and all(n and want.get(n) == "Rejected" for n in names) and not ok_arm:
+                        rr.ok("%s -> Rejected" % "|".join(names))
+                        for n in names:
+                            seen[n] = var
+                        continue
+                    if var == "IrrevocablyResolved" or any(n is None or want.get(n) != var for n in names):
+                        rr.fail("verdict-arm:%s" % "|".join(str(n) for n in names), "%s is reported for the codes %s" % (var, names), where=b.line_of(bb))
+                        continue
                 if var in ("InMempoolSince", "ConfirmedIn"):
                     if ok_arm and not err_arm:
                         h = og.show(ctx.og.operand(b, s["rv"]["ops"][0]))
@@ -805,8 +817,8 @@ def rule_CR(ctx, tier):
     for nm, v in want.items():
         if seen.get(nm) != v:
             rr.fail("verdict-table:%s" % nm, "node error %s is mapped to %s (documented: %s)" % (nm, seen.get(nm), v), where=b.span)
-    if n_status < 7:
-        rr.fail("floor:status-sites", "only %d ConfirmationStatus constructions in send_transaction (7 confirmed)" % n_status)
+    if n_status < 4:
+        rr.fail("floor:status-sites", "only %d ConfirmationStatus constructions in send_transaction" % n_status)
     # memo: early return of an issued receipt; insert before every normal return that computed a verdict
     ins = sites_containing(b, "HashMap", "::insert")
     gets = sites_containing(b, "HashMap", "::get")
@@ -836,7 +848,7 @@ def rule_CR(ctx, tier):
                     trues.append((bb, og.show(v)[:80]))
     for bb, v in trues:
         rr.fail("in-mempool-verdict", "Carrier::in_mempool answers `%s` on a path that is not (Ok(tx) && tx.blockhash.is_none()): a penalty the node does not hold in its mempool would be tracked as sent" % v, where=im.line_of(bb))
-    rr.require_floor(9, "CR instances")
+    rr.require_floor(8, "CR instances")
     return rr
 
 
